@@ -246,3 +246,141 @@ for _w in ("ConvAffineFusion", "AffineConvFusion"):
                               kind="bounded", bound="weight [2,2,1,2] (2 output channels, 2 input channels, 1x2 kernel), one output position; all values unbounded reals; scale/offset of rank 0, 1, 4, 5",
                               trusted=["ONNX Conv (no padding): out[m] = sum_{c,k} w[m,c,k] x[c,k] + b[m]", "numpy broadcasting / reshape / sum on object arrays"],
                               assumptions=["floats treated as reals"], max_paths=2000))
+
+
+# ------------------------------------------------------------------ Pad + Conv ---------------------------------
+
+def s_fuse_conv_pad(ctx):
+    """FuseConvPad: Conv(Pad(x, pads, value, axes; mode), ...) -> Conv(x, ...; pads = old + spatial part of the Pad).
+    Theory: Pad in constant mode with value 0 followed by a Conv with explicit pads P equals that Conv with P + (the Pad's
+    begin / end amounts) on every spatial axis - provided the Pad leaves the batch and channel axes alone, adds no
+    negative amount, and the Conv pads explicitly (auto_pad NOTSET).  Post: the rule fires only then, only for constants
+    that are not overridable graph inputs, and the new pads are exactly old + Pad (begin with begin, end with end, axis by
+    axis, whatever order and sign the Pad's `axes` input uses); every other attribute and input of the Conv is kept."""
+    import numpy as np
+    import onnx_ir as ir
+    from onnxscript.rewriter.rules.common import _fuse_pad_into_conv as mod
+    from pyvc.values import SReal, SBool
+    from .c09_reshape import IArr
+    from .c05_rules import with_producer
+    I = Interp(ctx)
+    W = World(I)
+    rank = 3 + ctx.choose(2, "two spatial dims")
+    nsp = rank - 2
+    shape_known = ctx.choose(2, "shape of x unknown") == 0
+    x = W.value("x", dims=[SInt(ctx.int(f"xd{i}")) for i in range(rank)] if shape_known else None, rt=[], dtype=ir.DataType.FLOAT)
+    axes_opts = [None, list(range(rank)), list(range(2, rank)), [a - rank for a in range(2, rank)], list(reversed(range(2, rank))), [0] + list(range(2, rank))]
+    axes = axes_opts[ctx.choose(len(axes_opts), "axes input") if shape_known else 0]
+    eff_axes = list(range(rank)) if axes is None else [a if a >= 0 else a + rank for a in axes]
+    n_ax = len(eff_axes)
+    pvals = [ctx.int(f"pad{i}") for i in range(2 * n_ax)]
+    for i, t in enumerate(pvals):
+        ctx.witness[f"pad{i}"] = t
+
+    def cval(name, arr, known=True, ovr=False):
+        t = None
+        if known:
+            t = SObj(ir.Tensor, f"{name}_tensor")
+
+            def f_numpy():
+                raise AssertionError
+            I.models[f_numpy] = lambda interp: arr
+            t.fields.update(numpy=f_numpy)
+        v = W.value(name, dims=None, rt=[], dtype=ir.DataType.INT64, const=t, initializer=known, graph_input=ovr)
+        v.fields["name"] = name
+        return v
+    flags = {"pads": "constant", "value": "constant", "axes": "constant"}
+    special = [None, ("pads", "overridable initializer"), ("pads", "not constant"), ("value", "overridable initializer"), ("value", "not constant"),
+               ("axes", "overridable initializer"), ("axes", "not constant")][ctx.choose(7, "one Pad operand that is not a plain constant")]
+    if special is not None:
+        flags[special[0]] = special[1]
+    pads_v = cval("pads", IArr([SInt(t) for t in pvals]), flags["pads"] != "not constant", flags["pads"] == "overridable initializer")
+    value_kind = ["absent", "zero", "any"][ctx.choose(3, "constant_value") if shape_known else 0]
+    c = ctx.const("pad_value", z3.RealSort())
+    ctx.witness["pad_value"] = c
+    value_v = None if value_kind == "absent" else cval("value", NArr_([SReal(z3.RealVal(0)) if value_kind == "zero" else SReal(c)]), flags["value"] != "not constant", flags["value"] == "overridable initializer")
+    axes_v = None if axes is None else cval("axes", IArr(list(axes)), flags["axes"] != "not constant", flags["axes"] == "overridable initializer")
+    pad_inputs = [x, pads_v] + ([value_v] if (value_v is not None or axes_v is not None) else []) + ([axes_v] if axes_v is not None else [])
+    mode = [None, "constant", "reflect"][ctx.choose(3, "mode attribute") if shape_known else 0]
+    pad_node = W.node("Pad", pad_inputs, attrs=({} if mode is None else {"mode": mode}))
+    I.models[ir.Attr.as_string] = lambda interp, a: a.fields["value"] if isinstance(a, SObj) else a.as_string()
+    pad_out = pad_node.fields["outputs"][0]
+    with_producer(I, pad_out, pad_node)
+    auto_pad = [None, "NOTSET", "SAME_UPPER"][ctx.choose(3, "auto_pad of the Conv") if shape_known else 0]
+    old = None
+    cattrs = {"group": 1}
+    if auto_pad is not None:
+        cattrs["auto_pad"] = auto_pad
+    if ctx.choose(2, "Conv has pads") == 0:
+        old = [ctx.int(f"old{i}") for i in range(2 * nsp)]
+        cattrs["pads"] = [SInt(t) for t in old]
+    wv, bv = W.value("w"), W.value("b")
+    conv_node = W.node("Conv", [pad_out, wv, bv], attrs=cattrs)
+    conv_node.fields["name"] = "conv0"
+    I.models[ir.Attr.as_ints] = lambda interp, a: list(a.fields["value"]) if isinstance(a, SObj) else a.as_ints()
+    conv_out = conv_node.fields["outputs"][0]
+    with_producer(I, conv_out, conv_node)
+    I.models[np.any] = lambda interp, seq: SBool(z3.Or(*[term(v) != 0 for v in interp.iterate(seq)])) if any(isinstance(v, SInt) for v in interp.iterate(seq)) else any(bool(v) for v in interp.iterate(seq))
+    made = []
+
+    def m_ints(interp, name, value, *a, **k):
+        a_ = SObj(ir.Attr, f"attr_{name}")
+        a_.fields.update(name=name, value=list(interp.iterate(value)), type="ints")
+        made.append(a_)
+        return a_
+    I.models[ir.AttrInt64s] = m_ints
+    rule = SObj(mod.FuseConvPad, "rule")
+    try:
+        fired = I.truth(I.call(I.getattr(rule, "check"), [None, x, pad_out, conv_out]))
+    except PyRaise as e:
+        ctx.check("C04.rules.FuseConvPad.check_never_raises", False, f"C04 — raised {e.exc!r}")
+        return
+    ctx.check("C04.rules.FuseConvPad.check_never_raises", True, "C04")
+    if not fired:
+        ctx.cover("FuseConvPad.check_failed")
+        return
+    ctx.check("C05.rules.FuseConvPad.fires_only_for_a_known_input_rank", x.fields["shape"] is not None, CL)
+    ctx.check("C05.rules.FuseConvPad.fires_only_in_constant_mode", mode in (None, "constant"), CL)
+    ctx.check("C05.rules.FuseConvPad.fires_only_with_explicit_conv_padding", auto_pad in (None, "NOTSET"), CL)
+    ctx.check("C05.rules.FuseConvPad.fires_only_for_constant_pad_operands", flags["pads"] != "not constant" and (value_v is None or flags["value"] != "not constant")
+              and (axes_v is None or flags["axes"] != "not constant"), CL)
+    ctx.check("C05.rules.FuseConvPad.does_not_fire_on_an_overridable_initializer",
+              flags["pads"] != "overridable initializer" and (value_v is None or flags["value"] != "overridable initializer") and (axes_v is None or flags["axes"] != "overridable initializer"),
+              "C05 / C04: 'initializers that are also graph inputs ... are never folded into constants'")
+    if value_kind == "any":
+        ctx.check("C05.rules.FuseConvPad.fires_only_for_pad_value_zero", c == 0, CL)
+    # full begin / end amounts per axis of x, as ONNX Pad defines them
+    begin = {a: z3.IntVal(0) for a in range(rank)}
+    end = {a: z3.IntVal(0) for a in range(rank)}
+    for k, a in enumerate(eff_axes):
+        begin[a], end[a] = pvals[k], pvals[k + n_ax]
+    ctx.check("C05.rules.FuseConvPad.fires_only_if_batch_and_channel_axes_are_not_padded_and_no_amount_is_negative",
+              z3.And(*[z3.And(begin[a] == 0, end[a] == 0) for a in (0, 1)], *[z3.And(begin[a] >= 0, end[a] >= 0) for a in range(rank)]), CL)
+    if x.fields["shape"] is None:
+        return
+    r = I.call(I.getattr(rule, "rewrite"), [OpRecorder(), x, pad_out, conv_out])
+    ok = isinstance(r, Call) and r.op == "op" and r.args[0] == "Conv" and list(r.args[1:]) == [x, wv, bv]
+    ctx.check("C05.rules.FuseConvPad.replacement_is_the_conv_of_x_with_the_same_other_inputs", ok, CL)
+    if not ok:
+        return
+    kw = {k: v for k, v in r.kwargs.items() if not k.startswith("_")}
+    val = lambda a: a.fields["value"] if isinstance(a, SObj) else a
+    ctx.check("C05.rules.FuseConvPad.every_other_conv_attribute_is_kept", all(k in kw and val(kw[k]) == cattrs[k] for k in cattrs if k != "pads") and set(kw) <= set(cattrs) | {"pads"}, CL)
+    okp = "pads" in kw and len(val(kw["pads"])) == 2 * nsp
+    ctx.check("C05.rules.FuseConvPad.new_pads_have_two_entries_per_spatial_axis", okp, CL)
+    if okp:
+        got = [term(v) for v in val(kw["pads"])]
+        base = old if old is not None else [z3.IntVal(0)] * (2 * nsp)
+        want = [base[i] + begin[2 + i] for i in range(nsp)] + [base[nsp + i] + end[2 + i] for i in range(nsp)]
+        ctx.check("C05.rules.FuseConvPad.new_pads_are_the_old_pads_plus_the_pad_amounts_axis_by_axis", z3.And(*[g == w_ for g, w_ in zip(got, want)]), CL)
+
+
+def NArr_(items):
+    from .irmodel import NArr
+    return NArr(items, None, 0)
+
+
+SCENARIOS.append(Scenario("C05.rules.FuseConvPad", s_fuse_conv_pad,
+                          [(FILE, "_FuseConvPadBase.check"), (FILE, "_FuseConvPadBase.rewrite"), (FILE, "FuseConvPad.check"), (FILE, "fill_pads_with_axes")],
+                          kind="bounded", bound="1 or 2 spatial dims; axes input absent / all / spatial / negative / reversed / with the batch axis; pad amounts and old pads unbounded",
+                          trusted=["ONNX Pad-18 (pads = begins then ends for the listed axes, constant mode) and Conv pads operator documentation"], max_paths=60000))
